@@ -223,16 +223,14 @@ inline void runInterleaving(Ctx& c, const History& h, const std::vector<int>& or
         if (step % copyEvery == copyEvery - 1)
         {
             // continue on a copy of the decoder (copy-construct + copy-assign): pending reassemblies are part of its value
-            ASAM::CMP::Decoder copy(dec);
-            ASAM::CMP::Decoder other;
-            other = copy;
-            dec = other;
-            c.count("decoder_copies");
+            if (continueOnCopy(dec))
+                c.count("decoder_copies");
         }
         if (step == twinAt && order.size() <= 400)
         {
-            twin = std::make_unique<ASAM::CMP::Decoder>(dec);
-            c.count("decoder_twins_used_next_to_the_original");
+            twin = cloneDecoder(dec);
+            if (twin)
+                c.count("decoder_twins_used_next_to_the_original");
         }
         if (twin && step == twinDies)
             twin.reset();
